@@ -30,13 +30,14 @@ def _serial_cotengra():
 # independent reference helpers (numpy only)
 # ----------------------------------------------------------------------------------------------
 
-def _tol(dt, loose=1.0):
-    return (3e-4 if np.dtype(dt).itemsize <= 8 and np.dtype(dt).kind == "c" or np.dtype(dt) == np.float32 else 1e-9) * loose
-
-
 def _is_single(dt):
     dt = np.dtype(dt)
     return dt == np.float32 or dt == np.complex64
+
+
+def _tol(dt, loose=1.0):
+    """relative tolerance of a direct computation: single precision 3e-4, double 1e-9 (times `loose`)"""
+    return (3e-4 if _is_single(dt) else 1e-9) * loose
 
 
 def _rnd(rng, shape, dt):
@@ -2116,7 +2117,7 @@ def compress_options(cx):
 
         def t_opts(L=L, dt=dt, method=method, kind=kind, variant=variant, seed=seed, reverse=reverse):
             r2 = np.random.default_rng(seed)
-            tn, phys2 = _compress_inputs(qtn, r2, kind, L, dt)
+            tn, _ = _compress_inputs(qtn, r2, kind, L, dt)
             tags = [f"I{i}" for i in range(L)]
             groups = _site_groups(tn, tags)
             x_in = np.asarray(tn.to_dense(*groups)).astype(np.complex128)
